@@ -98,8 +98,8 @@ def module_table_memos(ctx, rule_id, files, what):
                   and ((isinstance(st.value, ast.Dict) and not st.value.keys) or (isinstance(st.value, ast.Call) and (dotted(st.value.func) or '').split('.')[-1] in ('dict', 'defaultdict', 'OrderedDict') and not st.value.args))}
         if not tables:
             continue
-        for f in [x for x in m.tree.body if isinstance(x, ast.FunctionDef)]:
-            params = {a.arg for a in f.args.args + f.args.kwonlyargs}
+        for f in [x for x in ast.walk(m.tree) if isinstance(x, ast.FunctionDef)]:
+            params = {a.arg for a in f.args.args + f.args.kwonlyargs} - {'self', 'cls'}
             defs = {}
             for s_ in walk_no_nested(f):
                 if isinstance(s_, ast.Assign):
@@ -112,14 +112,23 @@ def module_table_memos(ctx, rule_id, files, what):
                         if isinstance(it.optional_vars, ast.Name):
                             defs.setdefault(it.optional_vars.id, []).append(it.context_expr)
 
-            def deps(e, seen=()):
+            def deps(e, seen=(), key=False):
+                # parameters and fields of the instance the expression is computed from; inside a key, `len(X)` identifies the size of X only
                 out = set()
-                for n_ in names_in(e):
-                    if n_ in params:
-                        out.add(n_)
-                    elif n_ in defs and n_ not in seen:
-                        for v_ in defs[n_]:
-                            out |= deps(v_, seen + (n_,))
+                if key and isinstance(e, ast.Call) and isinstance(e.func, ast.Name) and e.func.id == 'len':
+                    return {'len(..)'}
+                if isinstance(e, ast.Attribute) and isinstance(e.value, ast.Name) and e.value.id in ('self', 'cls'):
+                    return {f'self.{e.attr}'}
+                if isinstance(e, ast.Name):
+                    if e.id in params:
+                        return {e.id}
+                    if e.id in defs and e.id not in seen:
+                        for v_ in defs[e.id]:
+                            out |= deps(v_, seen + (e.id,), key)
+                    return out
+                for c_ in ast.iter_child_nodes(e):
+                    if isinstance(c_, ast.AST) and not isinstance(c_, (ast.expr_context, ast.operator, ast.cmpop, ast.boolop, ast.unaryop)):
+                        out |= deps(c_, seen, key)
                 return out
             for s_ in walk_no_nested(f):
                 if not (isinstance(s_, ast.Assign) and any(isinstance(t, ast.Subscript) and isinstance(t.value, ast.Name) and t.value.id in tables for t in s_.targets)):
@@ -130,7 +139,7 @@ def module_table_memos(ctx, rule_id, files, what):
                 if not read_back:
                     continue
                 n += 1
-                kd, vd = deps(key), deps(s_.value)
+                kd, vd = deps(key, key=True), deps(s_.value)
                 extra = sorted(vd - kd)
                 ctx.emit(rule_id, not extra, rel, s_, f'{f.name} memoises in the module table {tab} under `{src(key)}` ' + ('(the key covers every parameter the stored value depends on)' if not extra else
                          f'(= {sorted(kd)}), but the stored value is computed from {sorted(vd)}: it depends on {extra}, which the key lacks - a later call with another `{extra[0]}` in the same process is answered '
